@@ -5,6 +5,7 @@ import ast
 import re
 import string
 
+from .. import cfg as C
 from .. import norm as N
 from ..index import fold, try_fold, dotted_text, Unfoldable
 from . import common as K
@@ -1182,6 +1183,226 @@ def _ldap(ctx):
            construct='option attribute template')
 
 
+def _update_fetches_all(ctx):
+    """C15.5: an update writes the difference between the stored entry and
+    the new one, and it can only delete what it fetched.  The attribute list
+    handed to the read therefore names *every* key of the new entry, also
+    the keys whose new value is empty - an emptied list is encoded as such a
+    key, and if it is not fetched the old ``attr;tm-...-N`` values are never
+    deleted: the object read back still has the elements that were
+    removed."""
+    mod = ctx.index.module(LDAP)
+    admin = None
+    update = None
+    for cls in mod.classes.values():
+        for func in cls.live_methods():
+            if any(K.callee_text(c) == '_diff_entries'
+                   for c in K.calls(func.node)):
+                admin, update = cls, func
+    ctx.require(update is not None, 'the method that diffs the stored entry '
+                'against the new one', rule='C15.5')
+    new_entry = None
+    for call in K.calls(update.node):
+        if K.callee_text(call) == '_diff_entries' and len(call.args) == 2:
+            new_entry = N.txt(call.args[1])
+            old = K.rexpr(update, call.args[0])
+    ctx.require(new_entry is not None, 'arguments of _diff_entries',
+                rule='C15.5', func=update)
+    reads = [c for c in K.calls(update.node)
+             if K.is_meth(c, 'get', 'search', 'paged_search') and
+             K.recv_text(c) == 'self']
+    ctx.require(reads, 'read of the stored entry in %s' % update.qualname,
+                rule='C15.5', func=update)
+    for read in reads:
+        attrs = [a for a in list(read.args) + [k.value for k in
+                                                read.keywords]
+                 if new_entry in N.mentions(a)]
+        if not attrs:
+            # everything is fetched (no attribute list derived from the new
+            # entry): nothing to decide
+            ctx.ok('C15.5', update, read, 'the stored entry is read without '
+                   'an attribute list derived from the new entry',
+                   construct='update fetches every attribute it may delete')
+            continue
+        expr = K.rexpr(update, attrs[0])
+        where = update
+        param = new_entry
+        if isinstance(expr, ast.Call) and isinstance(expr.func, ast.Name) \
+                and expr.func.id in mod.functions and len(expr.args) == 1:
+            where = mod.functions[expr.func.id]
+            param = where.params()[0]
+            body = where.node
+        else:
+            body = expr
+        filtered = []
+        walks = 0
+        for sub in ast.walk(body):
+            if isinstance(sub, (ast.ListComp, ast.SetComp, ast.GeneratorExp,
+                                ast.DictComp)):
+                for gen in sub.generators:
+                    if param in N.mentions(gen.iter):
+                        walks += 1
+                        filtered.extend(gen.ifs)
+            if isinstance(sub, ast.For) and param in N.mentions(sub.iter):
+                walks += 1
+                for inner in ast.walk(sub):
+                    if isinstance(inner, (ast.If, ast.IfExp)):
+                        filtered.append(inner.test)
+                    if isinstance(inner, (ast.Continue, ast.Break)):
+                        filtered.append(inner)
+            if isinstance(sub, ast.Call) and N.txt(sub.func) in (
+                    'filter', 'six.moves.filter') and sub.args and \
+                    param in N.mentions(sub):
+                filtered.append(sub.args[0])
+        direct = isinstance(body, ast.expr) and N.txt(body) in (
+            param, 'list(%s)' % param, 'sorted(%s)' % param,
+            '%s.keys()' % param, 'list(%s.keys())' % param)
+        ctx.require(walks or direct, 'walk over the keys of the new entry '
+                    'in %s' % where.qualname, rule='C15.5', func=where)
+        ctx.ob('C15.5', where, filtered[0] if filtered else None,
+               not filtered,
+               'the attribute list of the update read names every key of '
+               'the new entry' if not filtered else
+               'the attribute list of the update read leaves keys of the '
+               'new entry out (%s): an attribute the new entry empties is '
+               'not fetched, so its stored values are never deleted' %
+               N.txt(filtered[0])[:60],
+               construct='update fetches every attribute it may delete')
+
+
+def _enclosing_tests(root, stmt):
+    """Texts of the ``if`` tests (with polarity) that enclose ``stmt``
+    lexically inside ``root``."""
+    out = []
+
+    def walk(node, acc):
+        if node is stmt:
+            out.extend(acc)
+            return True
+        for field, value in ast.iter_fields(node):
+            items = value if isinstance(value, list) else [value]
+            for item in items:
+                if not isinstance(item, ast.AST):
+                    continue
+                nxt = acc
+                if isinstance(node, ast.If) and field == 'body':
+                    nxt = acc + [N.txt(node.test)]
+                elif isinstance(node, ast.If) and field == 'orelse':
+                    nxt = acc + ['not (%s)' % N.txt(node.test)]
+                if walk(item, nxt):
+                    return True
+        return False
+    walk(root, [])
+    return out
+
+
+def _emptied_list_reaches_update(ctx):
+    """C15.5: every attribute the written object names reaches the update
+    diff.  The converter leaves an attribute out of the entry when its value
+    is an empty list (the tests pin that shape of a *created* entry), and the
+    update diff deletes only what the new entry names: unless the update
+    routine completes the entry for the list attributes given as ``[]``, an
+    object updated to an empty list reads back with the old elements."""
+    mod = ctx.index.module(LDAP)
+    conv = mod.functions.get('_dict_2_entry')
+    ctx.require(conv is not None, '_ldap._dict_2_entry', rule='C15.5')
+    graph = ctx.cfg(conv)
+    params = conv.params()
+    loops = [n for n in graph.nodes if n.kind == 'for' and
+             N.txt(n.ast.iter) == params[1] and
+             not K.enclosing_for(graph, n)]
+    ctx.require(loops, 'walk over the schema in _dict_2_entry',
+                rule='C15.5', func=conv)
+    loop = loops[0]
+    body = K.loop_body_nodes(loop)
+    stores = [n for n in body if n.kind == 'stmt' and isinstance(
+        n.ast, ast.Assign) and any(
+            isinstance(t, ast.Subscript) and isinstance(t.value, ast.Name)
+            for t in n.ast.targets)]
+    # the outcome "the object names this field"
+    present = []
+    for test in [n for n in body if n.kind == 'test' and
+                 n.ast is not None]:
+        cond = test.ast
+        if isinstance(cond, ast.Compare) and len(cond.ops) == 1 and \
+                N.txt(cond.comparators[0]) == params[0]:
+            if isinstance(cond.ops[0], ast.NotIn):
+                present.extend(e.dst for e in test.succ if e.kind == 'false')
+            elif isinstance(cond.ops[0], ast.In):
+                present.extend(e.dst for e in test.succ if e.kind == 'true')
+    ctx.require(present, "the 'field named by the object' outcome in "
+                '_dict_2_entry', rule='C15.5', func=conv)
+    silent = None
+    for start in present:
+        if start in stores:
+            continue
+        silent = silent or K.find_path_cp(
+            graph, start, [loop], cut_node=lambda n: n in stores)
+    if silent is None:
+        ctx.ok('C15.5', conv, None, 'the converter emits a key for every '
+               'field the object names',
+               construct='emptied list attribute reaches the update diff')
+        return
+    # the converter leaves something out: the update routine completes it
+    upd = None
+    for cls in mod.classes.values():
+        for func in cls.live_methods():
+            if any(K.is_meth(c, 'update') and K.recv_text(c) == 'self.admin'
+                   for c in K.calls(func.node)) and any(
+                       K.is_meth(c, 'to_entry') for c in K.calls(func.node)):
+                upd = func
+    ctx.require(upd is not None, 'the object-level update routine',
+                rule='C15.5')
+    ugraph = ctx.cfg(upd)
+    sent = None
+    for call in K.calls(upd.node):
+        if K.is_meth(call, 'update') and K.recv_text(call) == 'self.admin' \
+                and len(call.args) >= 2:
+            sent = N.txt(call.args[1])
+            site = [n for n in ugraph.nodes if call in C.node_calls(n)]
+    completes = []
+    for lp in [n for n in ugraph.nodes if n.kind == 'for' and
+               'schema' in N.txt(n.ast.iter)]:
+        names = [e.id for e in ast.walk(lp.ast.target)
+                 if isinstance(e, ast.Name)]
+        if len(names) < 3:
+            continue
+        fld, objf, ftype = names[0], names[1], names[2]
+        for node in K.loop_body_nodes(lp):
+            hit = False
+            if node.kind == 'stmt' and isinstance(node.ast, ast.Assign) and \
+                    any(N.txt(t) == '%s[%s]' % (sent, fld)
+                        for t in node.ast.targets) and \
+                    N.txt(node.ast.value) == '[]':
+                hit = True
+            for c in C.node_calls(node):
+                if K.is_meth(c, 'setdefault') and K.recv_text(c) == sent \
+                        and len(c.args) == 2 and \
+                        N.txt(c.args[0]) == fld and \
+                        N.txt(c.args[1]) == '[]':
+                    hit = True
+            if not hit:
+                continue
+            # under: the field is list-typed and the object gives []
+            conds = ' and '.join(_enclosing_tests(lp.ast, node.ast))
+            if 'isinstance(%s, list)' % ftype in conds and \
+                    objf in conds and '[]' in conds:
+                completes.append(lp)
+    ok = bool(completes) and sent is not None and all(K.guarded_by(
+        ugraph, s, lambda e: e.src in completes and e.kind == 'done')
+        for s in site)
+    ctx.ob('C15.5', upd, None, ok,
+           'the converter leaves an attribute given as an empty list out of '
+           'the entry; the update routine names it again (empty) before the '
+           'diff' if ok else
+           'an attribute given as an empty list is left out of the entry '
+           'handed to the update (%s in _dict_2_entry stores nothing) and '
+           'the update routine does not name it: its stored values are '
+           'neither fetched nor deleted, the object reads back with the '
+           'old elements' % ' / '.join(K.describe(silent))[:200],
+           construct='emptied list attribute reaches the update diff')
+
+
 def _option_reader(ctx):
     """C15.5: the reader takes every option group the writer can emit: the
     writer numbers the groups in hexadecimal (``<prefix>-<idx:x>``), the
@@ -1292,6 +1513,21 @@ def _update_markers(ctx):
                 rule='C15.5', func=upd)
     for call in sends:
         sent = K.rexpr(upd, call.args[1])
+        if isinstance(sent, ast.Name):
+            # the entry is held in a local that is completed in place (keys
+            # added with an empty value): still the entry to_entry built as
+            # long as the local is bound once and nothing is taken out of it
+            binds = [sub for sub in K.walk_no_nested(upd.node)
+                     if isinstance(sub, ast.Assign) and any(
+                         N.txt(t) == sent.id for t in sub.targets)]
+            takes = [sub for sub in K.walk_no_nested(upd.node) if (
+                isinstance(sub, ast.Delete) and any(
+                    sent.id in N.mentions(t) for t in sub.targets)) or (
+                        isinstance(sub, ast.Call) and K.is_meth(
+                            sub, 'pop', 'popitem', 'clear') and
+                        K.recv_text(sub) == sent.id)]
+            if len(binds) == 1 and not takes:
+                sent = binds[0].value
         ok = isinstance(sent, ast.Call) and K.is_meth(sent, 'to_entry') and \
             K.recv_text(sent) == 'self'
         ctx.ob('C15.5', upd, call, ok,
@@ -1471,6 +1707,8 @@ def check(ctx):
     _update_markers(ctx)
     _list_values(ctx)
     _option_reader(ctx)
+    _update_fetches_all(ctx)
+    _emptied_list_reaches_update(ctx)
     _rulefile(ctx)
     _unique(ctx)
     _events(ctx, EV_APP, 'AppTraceEvent', 'AppTraceEventTypes')
@@ -1488,6 +1726,23 @@ _EA = 'lib/python/treadmill/trace/app/events.py'
 _ES = 'lib/python/treadmill/trace/server/events.py'
 
 MUTANTS = [
+    ('revert-F26-emptied-list-not-named-on-update', [(_LD, """        for ldap_field, obj_field, field_type in self.schema():
+            if isinstance(field_type, list) and attrs.get(obj_field) == []:
+                new_entry.setdefault(ldap_field, [])
+""", "")], 'C15.5'),
+    ('emptied-list-named-for-any-falsy-value-but-lists', [(_LD, """            if isinstance(field_type, list) and attrs.get(obj_field) == []:
+                new_entry.setdefault(ldap_field, [])
+""", """            if field_type is bool and attrs.get(obj_field) == []:
+                new_entry.setdefault(ldap_field, [])
+""")], 'C15.5'),
+    ('update-read-skips-emptied-attributes', [(_LD, """        k.split(';', 1)[0]
+        for k in entry.keys()
+    })
+""", """        k.split(';', 1)[0]
+        for k in entry.keys()
+        if entry[k]
+    })
+""")], 'C15.5'),
     ('revert-F20-wildcard-by-identity', [(_R, """                    _ANY if rule.src_ip == firewall.ANY_IP else rule.src_ip
 """, """                    _ANY if rule.src_ip is firewall.ANY_IP else rule.src_ip
 """)], 'C15.1'),
